@@ -9,8 +9,16 @@ package ssh
 // functions), and natively (replay / cross-check) the real functions always run.
 
 import (
+	"crypto"
+	"crypto/elliptic"
+	"crypto/mlkem"
+	"crypto/sha256"
+	"errors"
+	"hash"
+	"io"
 	"math/big"
 
+	"golang.org/x/crypto/curve25519"
 	"golang.org/x/crypto/internal/verifrt"
 )
 
@@ -170,4 +178,575 @@ func Verif_C29_ChooseDH() {
 	verifrt.Assert(found, "table: group of the wanted size exists")
 	verifrt.Assert(uint32(want) >= req.MinBits && uint32(want) <= req.MaxBits, "chosen group size within the requested bounds")
 	verifrt.Reach("chosen")
+}
+
+// ---------------------------------------------------------------------------------------------
+// Mock transport, randomness, host key (harness-owned types: no stubbing involved).
+
+type c29Conn struct {
+	in  [][]byte // packets the peer "sends"
+	out [][]byte // packets written by the code under test
+}
+
+func (c *c29Conn) writePacket(p []byte) error {
+	c.out = append(c.out, append([]byte(nil), p...))
+	return nil
+}
+
+func (c *c29Conn) readPacket() ([]byte, error) {
+	if len(c.in) == 0 {
+		return nil, io.EOF
+	}
+	p := c.in[0]
+	c.in = c.in[1:]
+	return p, nil
+}
+
+func (c *c29Conn) Close() error { return nil }
+
+// c29Rand hands out symbolic bytes and remembers them.
+type c29Rand struct{ got []byte }
+
+func (r *c29Rand) Read(b []byte) (int, error) {
+	verifrt.Fill(b)
+	r.got = append(r.got, b...)
+	return len(b), nil
+}
+
+const c29KeyAlgo = "c29-hostkey"
+
+func c29SigBlob(keyBlob, data []byte) []byte {
+	return verifrt.UFBytes("c29sign", 8, keyBlob, data)
+}
+
+// c29Key: host key whose signature on data is an uninterpreted function of (key blob, data); Verify
+// accepts exactly that value.  The same definition serves natively (UFBytes is a random oracle there).
+type c29Key struct{ blob []byte }
+
+func (k *c29Key) Type() string    { return c29KeyAlgo }
+func (k *c29Key) Marshal() []byte { return k.blob }
+func (k *c29Key) Verify(data []byte, sig *Signature) error {
+	want := c29SigBlob(k.blob, data)
+	if len(sig.Blob) != len(want) || c29Diff(sig.Blob, want) != 0 {
+		return errors.New("c29: bad signature")
+	}
+	return nil
+}
+func (k *c29Key) PublicKey() PublicKey { return k }
+func (k *c29Key) Sign(rand io.Reader, data []byte) (*Signature, error) {
+	return k.SignWithAlgorithm(rand, data, c29KeyAlgo)
+}
+func (k *c29Key) SignWithAlgorithm(rand io.Reader, data []byte, algo string) (*Signature, error) {
+	return &Signature{Format: algo, Blob: c29SigBlob(k.blob, data)}, nil
+}
+
+func c29Diff(a, b []byte) byte {
+	var d byte
+	for i := range a {
+		d |= a[i] ^ b[i]
+	}
+	return d
+}
+
+func c29Same(a, b []byte) bool { return len(a) == len(b) && c29Diff(a, b) == 0 }
+
+// c29Str is the RFC 4251 "string" encoding.
+func c29Str(b []byte) []byte {
+	n := len(b)
+	return append([]byte{byte(n >> 24), byte(n >> 16), byte(n >> 8), byte(n)}, b...)
+}
+
+func c29Cat(parts ...[]byte) []byte {
+	var out []byte
+	for _, p := range parts {
+		out = append(out, p...)
+	}
+	return out
+}
+
+// ---------------------------------------------------------------------------------------------
+// Primitive stubs (inert unless c29On; natively the real primitives run).
+
+// Recording hash: Sum is an uninterpreted function of everything written.
+type c29Hash struct{ buf []byte }
+
+func (h *c29Hash) Write(p []byte) (int, error) { h.buf = append(h.buf, p...); return len(p), nil }
+func (h *c29Hash) Sum(b []byte) []byte         { return append(b, c29H(h.buf)...) }
+func (h *c29Hash) Reset()                      { h.buf = nil }
+func (h *c29Hash) Size() int                   { return 32 }
+func (h *c29Hash) BlockSize() int              { return 64 }
+
+// c29H is SHA-256 as seen by the harness: an uninterpreted function symbolically, the real one natively.
+func c29H(msg []byte) []byte {
+	if verifrt.Symbolic() {
+		return verifrt.UFBytes("c29sha256", 32, msg)
+	}
+	s := sha256.Sum256(msg)
+	return s[:]
+}
+
+//verif:stub crypto/sha256.New
+func c29StubSha256New() hash.Hash {
+	if !verifrt.Symbolic() || !c29On {
+		return sha256.New()
+	}
+	return &c29Hash{}
+}
+
+// crypto.SHA256.New() (the engine does not run crypto.RegisterHash from dependency initialisers).
+//
+//verif:stub (crypto.Hash).New
+func c29StubHashNew(h crypto.Hash) hash.Hash {
+	if !verifrt.Symbolic() || !c29On || h != crypto.SHA256 {
+		return h.New()
+	}
+	return &c29Hash{}
+}
+
+func c29X(scalar, point []byte) []byte {
+	if verifrt.Symbolic() {
+		return verifrt.UFBytes("c29x25519", 32, scalar, point)
+	}
+	out, _ := curve25519.X25519(scalar, point)
+	if out == nil {
+		out = make([]byte, 32)
+	}
+	return out
+}
+
+// X25519 contract (crypto/ecdh, RFC 7748 section 6.1 check): 32-byte inputs; the result is an
+// uninterpreted function of (scalar, point); an all-zero result (low-order point) is an error.  For the
+// base point the result is never zero.
+//
+//verif:stub golang.org/x/crypto/curve25519.X25519
+func c29StubX25519(scalar, point []byte) ([]byte, error) {
+	if !verifrt.Symbolic() || !c29On {
+		return curve25519.X25519(scalar, point)
+	}
+	if len(scalar) != 32 || len(point) != 32 {
+		return nil, errors.New("c29: bad X25519 input length")
+	}
+	out := c29X(scalar, point)
+	if len(point) == 32 && c29Diff(point, curve25519.Basepoint) == 0 {
+		verifrt.Assume(c29NonZero(out))
+		return out, nil
+	}
+	if !c29NonZero(out) {
+		return nil, errors.New("c29: low order point")
+	}
+	return out, nil
+}
+
+// ---------------------------------------------------------------------------------------------
+// curve25519-sha256 (RFC 8731 / RFC 5656 section 4)
+
+type c29Magics struct {
+	m          handshakeMagics
+	transcript []byte // string V_C || string V_S || string I_C || string I_S
+}
+
+func c29NewMagics() *c29Magics {
+	vc, vs, ic, is := verifrt.Bytes(2), verifrt.Bytes(3), verifrt.Bytes(2), verifrt.Bytes(1)
+	return &c29Magics{
+		m:          handshakeMagics{clientVersion: vc, serverVersion: vs, clientKexInit: ic, serverKexInit: is},
+		transcript: c29Cat(c29Str(vc), c29Str(vs), c29Str(ic), c29Str(is)),
+	}
+}
+
+// c29CheckResult: K is the mpint encoding of the 32-byte shared secret (big endian integer, RFC 8731
+// section 3.1) and H = HASH(V_C, V_S, I_C, I_S, K_S, Q_C, Q_S, K) with strings length-prefixed.
+func c29CheckResult(r *kexResult, mg *c29Magics, ks, qc, qs, secret []byte) {
+	verifrt.Assert(len(r.K) >= 4 && c24be32(r.K) == uint32(len(r.K)-4), "K: mpint length prefix")
+	c24CheckMpintEnc(r.K[4:], secret, false)
+	want := c29H(c29Cat(mg.transcript, c29Str(ks), c29Str(qc), c29Str(qs), r.K))
+	verifrt.Assert(c29Same(r.H, want), "H = HASH(V_C || V_S || I_C || I_S || K_S || Q_C || Q_S || K), each string length-prefixed, K as mpint")
+	verifrt.Assert(c29Same(r.HostKey, ks), "result carries the peer's host key blob")
+}
+
+// Verif_C29_X25519Client: curve25519sha256.Client against an arbitrary server reply.
+// Symbolic: client randomness (32 bytes), version strings and KEXINIT payloads (1..3 bytes each), host key
+// blob (4 bytes), Q_S (length forked over 0, 31, 32, 33; all bytes symbolic), signature blob (8 bytes).
+// Stubs: SHA-256 = uninterpreted function of the bytes written (recording hash), X25519 = uninterpreted
+// function with the all-zero => error contract, host key signature = uninterpreted function.
+// Decided: Q_C sent is X25519(priv, base); |Q_S| != 32 is rejected; a low-order Q_S (all-zero secret) is
+// rejected; otherwise K and H follow RFC 8731 (c29CheckResult); and verifyHostKeySignature(hostKey, algo,
+// result) accepts exactly when the signature blob is the host key's signature on THAT H with the
+// negotiated algorithm name and nothing trails the signature.
+func Verif_C29_X25519Client() {
+	c29On = true
+	mg := c29NewMagics()
+	ks := verifrt.Bytes(4)
+	qs := verifrt.Bytes([]int{32, 0, 31, 33}[verifrt.Choose(0, 3)])
+	blob := verifrt.Bytes(8)
+	sig := c29Cat(c29Str([]byte(c29KeyAlgo)), c29Str(blob))
+	conn := &c29Conn{in: [][]byte{c29Cat([]byte{31}, c29Str(ks), c29Str(qs), c29Str(sig))}}
+	rnd := &c29Rand{}
+	var res *kexResult
+	var err error
+	pn := verifrt.Panics(func() { res, err = (&curve25519sha256{}).Client(conn, rnd, &mg.m) })
+	verifrt.Assert(!pn, "Client does not panic")
+	verifrt.Assert(len(rnd.got) == 32, "client draws a 32-byte private scalar")
+	priv := rnd.got
+	qc := c29X(priv, curve25519.Basepoint)
+	verifrt.Assert(len(conn.out) == 1 && c29Same(conn.out[0], c29Cat([]byte{30}, c29Str(qc))), "client sends SSH_MSG_KEX_ECDH_INIT with Q_C = X25519(priv, 9)")
+	if len(qs) != 32 {
+		verifrt.Assert(err != nil && res == nil, "peer public value of wrong length is rejected")
+		verifrt.Reach("bad-length")
+		return
+	}
+	secret := c29X(priv, qs)
+	if !c29NonZero(secret) {
+		verifrt.Assert(err != nil && res == nil, "all-zero shared secret (low-order point) is rejected")
+		verifrt.Reach("low-order")
+		return
+	}
+	verifrt.Assert(err == nil && res != nil, "well-formed reply is accepted by the kex step")
+	c29CheckResult(res, mg, ks, qc, qs, secret)
+	verifrt.Assert(c29Same(res.Signature, sig), "result carries the peer's signature")
+	// signature under another algorithm name / with a trailing byte: rejected whatever the blob is
+	other := *res
+	other.Signature = c29Cat(c29Str([]byte("c29-otherkey")), c29Str(blob))
+	verifrt.Assert(verifyHostKeySignature(&c29Key{blob: ks}, c29KeyAlgo, &other) != nil, "signature under a different algorithm name is rejected")
+	other.Signature = append(append([]byte(nil), sig...), verifrt.U8())
+	verifrt.Assert(verifyHostKeySignature(&c29Key{blob: ks}, c29KeyAlgo, &other) != nil, "signature with trailing bytes is rejected")
+	verr := verifyHostKeySignature(&c29Key{blob: ks}, c29KeyAlgo, res)
+	genuine := c29Same(blob, c29SigBlob(ks, res.H))
+	verifrt.Assert((verr == nil) == genuine, "host key signature accepted iff it is the key's signature on H with the negotiated algorithm")
+	if verr == nil {
+		verifrt.Reach("verified")
+	} else {
+		verifrt.Reach("sig-rejected")
+	}
+}
+
+// Verif_C29_X25519Server: curve25519sha256.Server against an arbitrary client init (Q_C length forked
+// over 32, 0, 31, 33; all bytes symbolic).  Same stubs.  Decided: wrong length / low-order Q_C rejected
+// before anything is sent; otherwise K, H follow RFC 8731, the reply is SSH_MSG_KEX_ECDH_REPLY(K_S, Q_S =
+// X25519(priv, 9), signature) and the signature is the host key's signature on H under the negotiated
+// algorithm.
+func Verif_C29_X25519Server() {
+	c29On = true
+	mg := c29NewMagics()
+	key := &c29Key{blob: verifrt.Bytes(4)}
+	qc := verifrt.Bytes([]int{32, 0, 31, 33}[verifrt.Choose(0, 3)])
+	conn := &c29Conn{in: [][]byte{c29Cat([]byte{30}, c29Str(qc))}}
+	rnd := &c29Rand{}
+	var res *kexResult
+	var err error
+	pn := verifrt.Panics(func() { res, err = (&curve25519sha256{}).Server(conn, rnd, &mg.m, key, c29KeyAlgo) })
+	verifrt.Assert(!pn, "Server does not panic")
+	if len(qc) != 32 {
+		verifrt.Assert(err != nil && res == nil && len(conn.out) == 0, "peer public value of wrong length is rejected, nothing sent")
+		verifrt.Reach("bad-length")
+		return
+	}
+	verifrt.Assert(len(rnd.got) >= 32, "server draws a 32-byte private scalar")
+	priv := rnd.got[:32]
+	secret := c29X(priv, qc)
+	if !c29NonZero(secret) {
+		verifrt.Assert(err != nil && res == nil && len(conn.out) == 0, "all-zero shared secret (low-order point) is rejected, nothing sent")
+		verifrt.Reach("low-order")
+		return
+	}
+	verifrt.Assert(err == nil && res != nil, "well-formed init is accepted")
+	qs := c29X(priv, curve25519.Basepoint)
+	c29CheckResult(res, mg, key.blob, qc, qs, secret)
+	sig := c29Cat(c29Str([]byte(c29KeyAlgo)), c29Str(c29SigBlob(key.blob, res.H)))
+	verifrt.Assert(c29Same(res.Signature, sig), "result signature is the host key's signature on H")
+	verifrt.Assert(len(conn.out) == 1 && c29Same(conn.out[0], c29Cat([]byte{31}, c29Str(key.blob), c29Str(qs), c29Str(sig))), "server sends SSH_MSG_KEX_ECDH_REPLY(K_S, Q_S, signature on H)")
+	verifrt.Reach("replied")
+}
+
+// ---------------------------------------------------------------------------------------------
+// mlkem768x25519-sha256 (draft-kampanakis-curdle-ssh-pq-ke): ML-KEM-768 as uninterpreted functions.
+//
+// Contract used for crypto/mlkem (FIPS 203 API): NewEncapsulationKey768 requires exactly 1184 bytes
+// and may reject them (modulus check: nondeterministic here); Encapsulate returns a 32-byte secret and
+// a 1088-byte ciphertext (uninterpreted functions of the key bytes); NewDecapsulationKey768 takes a
+// 64-byte seed; EncapsulationKey().Bytes() is 1184 bytes (UF of the seed); Decapsulate requires exactly
+// 1088 bytes and returns 32 bytes (UF of seed and ciphertext).  The harness records whether any of them
+// was handed a wrong-length input (c29MlkemMisuse): the SSH code must check lengths BEFORE use.
+
+var (
+	c29MlkemEK     []byte // bytes the current encapsulation key was made from
+	c29MlkemSeed   []byte
+	c29MlkemReject bool // NewEncapsulationKey768 rejects the key (nondeterministic, chosen by the harness)
+	c29MlkemMisuse bool
+)
+
+func c29MlkemSS(ek []byte) []byte { return verifrt.UFBytes("c29mlkem-ss", 32, ek) }
+func c29MlkemCT(ek []byte) []byte { return verifrt.UFBytes("c29mlkem-ct", mlkem.CiphertextSize768, ek) }
+func c29MlkemPub(seed []byte) []byte {
+	return verifrt.UFBytes("c29mlkem-ek", mlkem.EncapsulationKeySize768, seed)
+}
+func c29MlkemDec(seed, ct []byte) []byte { return verifrt.UFBytes("c29mlkem-dec", 32, seed, ct) }
+
+//verif:stub crypto/mlkem.NewEncapsulationKey768
+func c29StubNewEK(b []byte) (*mlkem.EncapsulationKey768, error) {
+	if !verifrt.Symbolic() || !c29On {
+		return mlkem.NewEncapsulationKey768(b)
+	}
+	if len(b) != mlkem.EncapsulationKeySize768 {
+		c29MlkemMisuse = true
+		return nil, errors.New("c29: bad encapsulation key length")
+	}
+	if c29MlkemReject {
+		return nil, errors.New("c29: invalid encapsulation key")
+	}
+	c29MlkemEK = append([]byte(nil), b...)
+	return &mlkem.EncapsulationKey768{}, nil
+}
+
+//verif:stub (*crypto/mlkem.EncapsulationKey768).Encapsulate
+func c29StubEncapsulate(ek *mlkem.EncapsulationKey768) (sharedKey, ciphertext []byte) {
+	if !verifrt.Symbolic() || !c29On {
+		return ek.Encapsulate()
+	}
+	return c29MlkemSS(c29MlkemEK), c29MlkemCT(c29MlkemEK)
+}
+
+//verif:stub (*crypto/mlkem.EncapsulationKey768).Bytes
+func c29StubEKBytes(ek *mlkem.EncapsulationKey768) []byte {
+	if !verifrt.Symbolic() || !c29On {
+		return ek.Bytes()
+	}
+	return c29MlkemPub(c29MlkemSeed)
+}
+
+//verif:stub crypto/mlkem.NewDecapsulationKey768
+func c29StubNewDK(seed []byte) (*mlkem.DecapsulationKey768, error) {
+	if !verifrt.Symbolic() || !c29On {
+		return mlkem.NewDecapsulationKey768(seed)
+	}
+	if len(seed) != mlkem.SeedSize {
+		c29MlkemMisuse = true
+		return nil, errors.New("c29: bad seed length")
+	}
+	c29MlkemSeed = append([]byte(nil), seed...)
+	return &mlkem.DecapsulationKey768{}, nil
+}
+
+//verif:stub (*crypto/mlkem.DecapsulationKey768).EncapsulationKey
+func c29StubDKEK(dk *mlkem.DecapsulationKey768) *mlkem.EncapsulationKey768 {
+	if !verifrt.Symbolic() || !c29On {
+		return dk.EncapsulationKey()
+	}
+	return &mlkem.EncapsulationKey768{}
+}
+
+//verif:stub (*crypto/mlkem.DecapsulationKey768).Decapsulate
+func c29StubDecapsulate(dk *mlkem.DecapsulationKey768, ct []byte) ([]byte, error) {
+	if !verifrt.Symbolic() || !c29On {
+		return dk.Decapsulate(ct)
+	}
+	if len(ct) != mlkem.CiphertextSize768 {
+		c29MlkemMisuse = true
+		return nil, errors.New("c29: bad ciphertext length")
+	}
+	return c29MlkemDec(c29MlkemSeed, ct), nil
+}
+
+// c29CheckHybrid: K = string(SHA-256(mlkem_ss || x25519_ss)) and H = HASH(V_C, V_S, I_C, I_S, K_S,
+// C_INIT, S_REPLY, K) with K encoded as a string (draft section 2.4), not as an mpint.
+func c29CheckHybrid(r *kexResult, mg *c29Magics, ks, cinit, sreply, mlkemSS, xSS []byte) {
+	k := c29Str(c29H(c29Cat(mlkemSS, xSS)))
+	verifrt.Assert(c29Same(r.K, k), "K = string(SHA-256(mlkem_ss || x25519_ss))")
+	want := c29H(c29Cat(mg.transcript, c29Str(ks), c29Str(cinit), c29Str(sreply), k))
+	verifrt.Assert(c29Same(r.H, want), "H = HASH(V_C || V_S || I_C || I_S || K_S || C_INIT || S_REPLY || K), K as string")
+}
+
+// Verif_C29_MlkemServer: mlkem768WithCurve25519sha256.Server against an arbitrary client init whose
+// length is forked over 1216 (= 1184 + 32, all bytes symbolic) and the wrong lengths 0, 32, 1184, 1215,
+// 1217.  Stubs: ML-KEM, X25519, SHA-256 (uninterpreted functions, contracts above), host key signature.
+// Decided: wrong-length C_INIT is rejected before ML-KEM or X25519 see it and nothing is sent; a rejected
+// encapsulation key or a low-order X25519 share aborts; otherwise S_REPLY = ciphertext || X25519(priv, 9),
+// K and H as in c29CheckHybrid, the reply carries the host key's signature on H.
+func Verif_C29_MlkemServer() {
+	c29On = true
+	mg := c29NewMagics()
+	key := &c29Key{blob: verifrt.Bytes(4)}
+	n := []int{1216, 0, 32, 1184, 1215, 1217}[verifrt.Choose(0, 5)]
+	cinit := verifrt.Bytes(n)
+	c29MlkemReject = verifrt.Choose(0, 1) == 1
+	conn := &c29Conn{in: [][]byte{c29Cat([]byte{30}, c29Str(cinit))}}
+	rnd := &c29Rand{}
+	var res *kexResult
+	var err error
+	pn := verifrt.Panics(func() {
+		res, err = (&mlkem768WithCurve25519sha256{}).Server(conn, rnd, &mg.m, key, c29KeyAlgo)
+	})
+	verifrt.Assert(!pn, "Server does not panic")
+	verifrt.Assert(!c29MlkemMisuse, "ML-KEM is never handed a wrong-length input")
+	if n != 1216 {
+		verifrt.Assert(err != nil && res == nil && len(conn.out) == 0 && len(rnd.got) == 0, "wrong-length C_INIT is rejected before use")
+		verifrt.Reach("bad-length")
+		return
+	}
+	if c29MlkemReject {
+		verifrt.Assert(err != nil && res == nil && len(conn.out) == 0, "invalid encapsulation key aborts the exchange")
+		verifrt.Reach("bad-key")
+		return
+	}
+	if !verifrt.Symbolic() {
+		return // natively ML-KEM is the real, randomised primitive: only the rejection paths are comparable
+	}
+	ek, xc := cinit[:1184], cinit[1184:]
+	verifrt.Assert(len(rnd.got) >= 32, "server draws a 32-byte X25519 scalar")
+	priv := rnd.got[:32]
+	xSS := c29X(priv, xc)
+	if !c29NonZero(xSS) {
+		verifrt.Assert(err != nil && res == nil && len(conn.out) == 0, "low-order X25519 share is rejected")
+		verifrt.Reach("low-order")
+		return
+	}
+	verifrt.Assert(err == nil && res != nil, "well-formed C_INIT is accepted")
+	sreply := c29Cat(c29MlkemCT(ek), c29X(priv, curve25519.Basepoint))
+	c29CheckHybrid(res, mg, key.blob, cinit, sreply, c29MlkemSS(ek), xSS)
+	sig := c29Cat(c29Str([]byte(c29KeyAlgo)), c29Str(c29SigBlob(key.blob, res.H)))
+	verifrt.Assert(len(conn.out) == 1 && c29Same(conn.out[0], c29Cat([]byte{31}, c29Str(key.blob), c29Str(sreply), c29Str(sig))), "server sends SSH_MSG_KEX_ECDH_REPLY(K_S, S_REPLY, signature on H)")
+	verifrt.Reach("replied")
+}
+
+// Verif_C29_MlkemClient: mlkem768WithCurve25519sha256.Client against an arbitrary server reply whose
+// S_REPLY length is forked over 1120 (= 1088 + 32, all bytes symbolic) and 0, 32, 1088, 1119, 1121.
+// Decided: C_INIT sent = encapsulation key || X25519(priv, 9); wrong-length S_REPLY rejected before
+// Decapsulate/X25519 see it; low-order X25519 share rejected; otherwise K, H as in c29CheckHybrid with
+// mlkem_ss = Decapsulate(ciphertext part).
+func Verif_C29_MlkemClient() {
+	c29On = true
+	mg := c29NewMagics()
+	ks := verifrt.Bytes(4)
+	n := []int{1120, 0, 32, 1088, 1119, 1121}[verifrt.Choose(0, 5)]
+	sreply := verifrt.Bytes(n)
+	sig := verifrt.Bytes(3)
+	conn := &c29Conn{in: [][]byte{c29Cat([]byte{31}, c29Str(ks), c29Str(sreply), c29Str(sig))}}
+	rnd := &c29Rand{}
+	var res *kexResult
+	var err error
+	pn := verifrt.Panics(func() { res, err = (&mlkem768WithCurve25519sha256{}).Client(conn, rnd, &mg.m) })
+	verifrt.Assert(!pn, "Client does not panic")
+	verifrt.Assert(!c29MlkemMisuse, "ML-KEM is never handed a wrong-length input")
+	verifrt.Assert(len(rnd.got) == 32+64, "client draws a 32-byte X25519 scalar and a 64-byte ML-KEM seed")
+	if !verifrt.Symbolic() {
+		if n != 1120 {
+			verifrt.Assert(err != nil && res == nil, "wrong-length S_REPLY is rejected before use")
+		}
+		return // natively ML-KEM is the real primitive: only the rejection paths are comparable
+	}
+	priv, seed := rnd.got[:32], rnd.got[32:]
+	cinit := c29Cat(c29MlkemPub(seed), c29X(priv, curve25519.Basepoint))
+	verifrt.Assert(len(conn.out) == 1 && c29Same(conn.out[0], c29Cat([]byte{30}, c29Str(cinit))), "client sends C_INIT = ek || X25519(priv, 9)")
+	if n != 1120 {
+		verifrt.Assert(err != nil && res == nil, "wrong-length S_REPLY is rejected before use")
+		verifrt.Reach("bad-length")
+		return
+	}
+	ct, xs := sreply[:1088], sreply[1088:]
+	xSS := c29X(priv, xs)
+	if !c29NonZero(xSS) {
+		verifrt.Assert(err != nil && res == nil, "low-order X25519 share is rejected")
+		verifrt.Reach("low-order")
+		return
+	}
+	verifrt.Assert(err == nil && res != nil, "well-formed S_REPLY is accepted")
+	c29CheckHybrid(res, mg, ks, cinit, sreply, c29MlkemDec(seed, ct), xSS)
+	verifrt.Assert(c29Same(res.HostKey, ks) && c29Same(res.Signature, sig), "result carries host key and signature for verification")
+	verifrt.Reach("accepted")
+}
+
+// ---------------------------------------------------------------------------------------------
+// diffie-hellman-group-exchange (RFC 4419): server side request validation and group choice.
+
+// Verif_C29_GexServer: dhGEXSHA.Server reads SSH_MSG_KEX_DH_GEX_REQUEST(min, n, max) with ALL three
+// uint32 symbolic; the mock peer then closes the connection, so the run ends after the group message.
+// Decided: the request is refused exactly when NOT (min <= n <= max and max >= 2048 and min <= 4096)
+// (OpenSSH kexgexs.c check plus this package's 4096-bit ceiling); every accepted request is answered with
+// SSH_MSG_KEX_DH_GEX_GROUP(p, g = 2) where p is the shipped group selected by the choose_dh rule, whose
+// size lies within [min, max]; a well-formed request whose range contains no shipped group (e.g. 3106,
+// 3201, 3232) is answered with an error and no group (OpenSSH would fall back to a fixed group there).
+func Verif_C29_GexServer() {
+	c29On = true
+	min, n, max := verifrt.U32(), verifrt.U32(), verifrt.U32()
+	req := c29Cat([]byte{34}, c24put32(min), c24put32(n), c24put32(max))
+	conn := &c29Conn{in: [][]byte{req}}
+	mg := c29NewMagics()
+	key := &c29Key{blob: verifrt.Bytes(4)}
+	var res *kexResult
+	var err error
+	pn := verifrt.Panics(func() { res, err = (&dhGEXSHA{hashFunc: crypto.SHA256}).Server(conn, &c29Rand{}, &mg.m, key, c29KeyAlgo) })
+	verifrt.Assert(!pn, "GEX Server does not panic")
+	verifrt.Assert(err != nil && res == nil, "run ends with an error (peer closed)")
+	valid := min <= n && n <= max && max >= 2048 && min <= 4096
+	if !valid {
+		verifrt.Assert(len(conn.out) == 0, "out-of-range GEX request is refused before a group is sent")
+		verifrt.Reach("refused")
+		return
+	}
+	want := c29RefChoose(min, n, max)
+	if want == 0 {
+		// e.g. (3106, 3201, 3232): well-formed, but no shipped group lies in the range; the server must
+		// then fail rather than send a group outside the bounds.
+		verifrt.Assert(len(conn.out) == 0, "no group is sent when none lies within [min, max]")
+		verifrt.Reach("no-group")
+		return
+	}
+	verifrt.Assert(len(conn.out) == 1, "acceptable GEX request is answered with a group")
+	var grp kexDHGexGroupMsg
+	verifrt.Assert(Unmarshal(conn.out[0], &grp) == nil, "group message parses")
+	verifrt.Assert(grp.G.Cmp(big.NewInt(2)) == 0, "generator is 2")
+	verifrt.Assert(grp.P.BitLen() == want, "modulus has the size selected by the choose_dh rule")
+	verifrt.Assert(uint32(grp.P.BitLen()) >= min && uint32(grp.P.BitLen()) <= max, "modulus size within the requested bounds")
+	for _, g := range supportedDHKEXGroups() {
+		if g.size == want {
+			verifrt.Assert(grp.P.Cmp(g.p) == 0, "modulus is the shipped group of that size")
+		}
+	}
+	verifrt.Reach("group-sent")
+}
+
+// ---------------------------------------------------------------------------------------------
+// validateECPublicKey over a mock curve: Params().P is a 61-bit prime, IsOnCurve is a free boolean.
+
+type c29Curve struct {
+	params  *elliptic.CurveParams
+	onCurve bool
+	asked   bool
+}
+
+func (c *c29Curve) Params() *elliptic.CurveParams { return c.params }
+func (c *c29Curve) IsOnCurve(x, y *big.Int) bool  { c.asked = true; return c.onCurve }
+func (c *c29Curve) Add(x1, y1, x2, y2 *big.Int) (*big.Int, *big.Int) {
+	panic("c29: curve arithmetic not modelled")
+}
+func (c *c29Curve) Double(x1, y1 *big.Int) (*big.Int, *big.Int) {
+	panic("c29: curve arithmetic not modelled")
+}
+func (c *c29Curve) ScalarMult(x1, y1 *big.Int, k []byte) (*big.Int, *big.Int) {
+	panic("c29: curve arithmetic not modelled")
+}
+func (c *c29Curve) ScalarBaseMult(k []byte) (*big.Int, *big.Int) {
+	panic("c29: curve arithmetic not modelled")
+}
+
+// Verif_C29_ValidateEC: validateECPublicKey(curve, x, y) for a curve with P = 2^61-1 and IsOnCurve a
+// free boolean (curve arithmetic is not modelled), for every non-negative x, y of up to 9 bytes
+// (elliptic.Unmarshal only produces non-negative coordinates): the result is true exactly when
+// (x, y) != (0, 0), x < P, y < P and IsOnCurve says yes; no panic.
+func Verif_C29_ValidateEC() {
+	p := new(big.Int).SetUint64(1<<61 - 1)
+	cv := &c29Curve{params: &elliptic.CurveParams{P: p, BitSize: 61}, onCurve: verifrt.Bool()}
+	w := 9
+	xb, yb := verifrt.Bytes(verifrt.Choose(0, w)), verifrt.Bytes(verifrt.Choose(0, w))
+	x, y := new(big.Int).SetBytes(xb), new(big.Int).SetBytes(yb)
+	var ok bool
+	pn := verifrt.Panics(func() { ok = validateECPublicKey(cv, x, y) })
+	verifrt.Assert(!pn, "validateECPublicKey does not panic")
+	pp := c29Pad(p.Bytes(), w+1)
+	want := (c29NonZero(xb) || c29NonZero(yb)) && c29Less(c29Pad(xb, w+1), pp) && c29Less(c29Pad(yb, w+1), pp) && cv.onCurve
+	verifrt.Assert(ok == want, "valid iff not (0,0), x < P, y < P and on curve")
+	if ok {
+		verifrt.Reach("valid")
+	} else {
+		verifrt.Reach("invalid")
+	}
 }
